@@ -122,6 +122,9 @@ fn history(out: &mut Out, rng: &mut Rng, consensus: &Consensus, idx: u64, honest
     // remembered window while the fork point lies inside it
     let lagfork = idx % 8 == 5 && !competing && !deep && !honest_only;
     let last_n = if lagfork { *rng.pick(&[3u64, 5, 10]) } else { last_n };
+    // young chain: the peers' first proofs end below last-N, so the remembered window is shorter than last-N while the chain grows
+    let young = idx % 8 == 7 && !competing && !deep;
+    let last_n = if young { *rng.pick(&[5u64, 10]) } else { last_n };
     let n_peers = if competing || deep || lagging || lagfork { 2 } else { rng.range(1, 3) as usize };
     let epochs = rng.range(4, 20) as usize;
     let pbits = *rng.pick(&[6u32, 12, 24]);
@@ -147,7 +150,8 @@ fn history(out: &mut Out, rng: &mut Rng, consensus: &Consensus, idx: u64, honest
         let h0 = if deep { if k == 0 { deep_height } else { tip } } else if competing { fork_at } else { rng.range(3, tip.min(3 + tip / 2)) };
         let h0 = if lagging { let top = (chains[0].tip() / 2).max(8); if k == 0 { top } else { top - 2 } } else { h0 };
         let h0 = if lagfork { if k == 0 { lag_top } else { lag_top - 2 } } else { h0 };
-        PeerSim { id: PeerIndex::new(k + 1), chain: ch, height: h0, connected: false, honest: honest_only || competing || lagging || lagfork || rng.chance(2, 3) }
+        let h0 = if young { rng.range(2, 4) } else { h0 };
+        PeerSim { id: PeerIndex::new(k + 1), chain: ch, height: h0, connected: false, honest: honest_only || competing || lagging || lagfork || young || rng.chance(2, 3) }
     }).collect();
     let mut now = T0 + 10_000;
     let steps = rng.range(6, 30);
@@ -165,6 +169,10 @@ fn history(out: &mut Out, rng: &mut Rng, consensus: &Consensus, idx: u64, honest
 
     let mut script: std::collections::VecDeque<(usize, u64, u64)> = if lagging {
         vec![(1, 0, 0), (1, 4, 0), (1, 101, 0), (1, 101, 0), (0, 0, 0), (0, 4, 0), (0, 100, 0), (0, 100, 0), (0, 4, 1), (0, 4, 1), (1, 4, 3), (1, 2, 0), (1, 101, 0), (1, 101, 0)].into()
+    } else if young {
+        // one honest peer: proven at 2..4, then the chain grows by 2, 3, 1 (child fast path), 2 with a proof each time
+        vec![(0, 0, 0), (0, 4, 0), (0, 100, 0), (0, 100, 0), (0, 4, 2), (0, 2, 0), (0, 100, 0), (0, 100, 0), (0, 4, 3), (0, 2, 0), (0, 100, 0), (0, 100, 0),
+             (0, 4, 1), (0, 2, 0), (0, 4, 2), (0, 2, 0), (0, 100, 0), (0, 100, 0)].into()
     } else if lagfork {
         vec![(1, 0, 0), (1, 4, 0), (1, 101, 0), (1, 101, 0), (0, 0, 0), (0, 4, 0), (0, 100, 0), (0, 100, 0), (1, 200, 0), (1, 4, 0), (1, 2, 0), (1, 101, 0), (1, 101, 0)].into()
     } else { Default::default() };
@@ -390,6 +398,8 @@ fn history(out: &mut Out, rng: &mut Rng, consensus: &Consensus, idx: u64, honest
                     let n = ch.number_of(&tip_hash).unwrap();
                     if ch.tds[n as usize] != td { problems.push(format!("[C12-difficulty-not-truthful] step {}: stored total difficulty {:#x} but the chain has {:#x}", step, td, ch.tds[n as usize])); }
                     let lastn = c.storage.get_last_n_headers();
+                    // (on a chain younger than last-N the code keeps a window with repeated entries, e.g. [1,2,3,0,1,2,3,4,5,6] for tip #7:
+                    // the rebased request makes the new headers overlap the old window; every entry is an ancestor, which is all C12 asks)
                     for (num, h) in &lastn {
                         if !(num < &n && ch.on_chain(*num, h)) { problems.push(format!("[C12-lastn-not-ancestors] step {}: remembered header #{} is not an ancestor of the stored tip #{}", step, num, n)); break; }
                     }
@@ -446,7 +456,7 @@ fn history(out: &mut Out, rng: &mut Rng, consensus: &Consensus, idx: u64, honest
     let mut kv: Vec<String> = kinds.iter().map(|(k, v)| format!("{}={}", k, v)).collect();
     kv.sort();
     let descr = format!("history of {} events over {} peers (last_n {}, main chain {} blocks, fork at {} +{}), events: {}", events.len(), n_peers, last_n, total, fork_at, fork_extra, kv.join(","));
-    let tag = if deep { "deep-fork" } else if lagfork { "lagging-fork" } else if competing { "competing-children" } else if honest_only { "honest" } else { "mixed" };
+    let tag = if deep { "deep-fork" } else if young { "young-chain" } else if lagfork { "lagging-fork" } else if competing { "competing-children" } else if honest_only { "honest" } else { "mixed" };
     out.case(&format!("history-{}", idx), &["history", tag], &model, &impl_v, oracle, &descr);
     intern_reset(false);
 }
